@@ -70,7 +70,7 @@ Proof.
   assert (NR : NoDup (g_ready g')).
   { clear - Nrs. induction (g_ready g') as [|a l IHl]; [constructor|].
     cbn [app] in Nrs. inversion Nrs; subst. constructor; [intros H; apply H1; apply in_app_iff; left; auto|auto]. }
-  apply (aug_price_slack n rows r (m_x s) (m_y s) (m_v s) (g_d g') (g_pred g') (g_ready g') mu j1 Rfin x' y'); auto.
+  apply (aug_price_slack n rows r (m_x s) (m_y s) (m_v s) (g_d g') (g_pred g') (g_ready g') mu j1 Rfin Rnodup x' y'); auto.
   - intros j Hj. split; [apply Hrs; apply in_app_iff; left; auto|]. apply RF; auto.
   - intros j i Hj Ey Ne. destruct (Src j) as [H|[H1 H2]]; [left; congruence|right; split; [congruence|exact H2]].
 Qed.
